@@ -10,7 +10,7 @@ PROPERTY = "C03"
 RULE = ("enum: every composition (n+, n-, n0) with N<=25 (quick) / N<=44 (thorough), each presented through 2 random arrangements and one segregated (block) arrangement, "
         "seed-chosen arrangements and spellings; hyp: random compositions to 120 (quick) / 300 (thorough) residues with "
         "boosted regime boundaries (n0 in 16..20, n+ = n-, equal blocks, single minority charge), 2 presentations each. "
-        "long-no-neutrals: majority block 128..160/170 with every minority count (quick: one in sixteen); every case has one segregated (block) presentation; maximisers-after-kappa: every composition with 5<=N<=10/13 at its brute-forced delta-maximiser, queried after get_kappa() on the same object; long-neighbours: 2-4 compositions of one length 101..160 differing by one residue, analysed one after another in the same process; random cases <=40 residues may follow a warm-up history. Oracle: (i) all presentations return the same value; (ii) get_deltaMax(True) returns (v, s) with v equal to the plain "
+        "long-no-neutrals: majority block 128..160/170 with every minority count (quick: one in sixteen); every case has one segregated (block) presentation; maximisers-after-kappa: every composition with 5<=N<=10/13 at its brute-forced delta-maximiser, queried after get_kappa() on the same object; near-ties: compositions with 20<=N<=160 (quick: all with N<=60, a sixth of the longer ones) whose documented candidate family has a runner-up within 1e-5 relative of its maximum (table derived from vlc/ref.py); long-neighbours: 2-4 compositions of one length 101..160 differing by one residue, analysed one after another in the same process; random cases <=40 residues may follow a warm-up history. Oracle: (i) all presentations return the same value; (ii) get_deltaMax(True) returns (v, s) with v equal to the plain "
         "call, s a rearrangement of the input whose exact reference delta equals v; (iii) v equals the maximum of exact "
         "rational delta over the documented candidate family (either reading where the prose is ambiguous). Non-trivial: "
         "a charged residue present and reference delta-max > 0; distinct by composition+presentation. Every object that has reported get_deltaMax() is then asked for get_deltaMax(True) and for the value again (same value to 1e-9, permutant attains it). In the generated parts one clean word in eight is handed to the constructor as SeqObj=Sequence(lower/mixed-case text) instead of as a string (same object expected).")
@@ -114,6 +114,24 @@ def long_no_neutral_cases(tier, seed):
             yield {"comp": [P, M, 0], "seqs": [util.spell(util.arrange(P, M, 0, rnd), rnd)]}
 
 
+def near_tie_cases(tier, seed):
+    """Compositions whose documented candidate family holds a runner-up within 1e-5 (relative) of its maximum without being an exact
+    tie (vlc/near_ties.json, regenerated from vlc/ref.py by vlc/mk_near_ties.py): where a tolerance-based early exit, a changed
+    tie-break or a re-ordered search reports something other than the family maximum.  Each is presented once (random arrangement
+    or its charge inversion); check_comp asks the same object for the value, then the permutant, then the value again."""
+    import json
+    import os
+    rnd = random.Random(seed + 21)
+    rows = json.load(open(os.path.join(os.path.dirname(os.path.dirname(__file__)), "near_ties.json")))["rows"]
+    for i, (P, M, Z) in enumerate(rows):
+        N = P + M + Z
+        if tier == "quick" and N > 60 and i % 6 != seed % 6:
+            continue
+        if rnd.random() < 0.5:
+            P, M = M, P
+        yield {"comp": [P, M, Z], "seqs": [util.spell(util.arrange(P, M, Z, rnd), rnd)], "near_tie": True}
+
+
 def check_neighbours(ctx, case):
     if "comp" in case:
         return check_comp(ctx, case)
@@ -136,6 +154,7 @@ def parts(tier):
              examples={"quick": 800, "thorough": 6400}, shards={"quick": 16, "thorough": 16}),
         Part("enum-maximisers-after-kappa", "enum", check=check_comp, cases=maximiser_cases, exhaustive=True, shards={"quick": 8, "thorough": 16}),
         Part("enum-long-no-neutrals", "enum", check=check_comp, cases=long_no_neutral_cases, exhaustive=False, shards={"quick": 16, "thorough": 16}),
+        Part("enum-near-ties", "enum", check=check_comp, cases=near_tie_cases, exhaustive=False, shards={"quick": 16, "thorough": 16}),
         Part("hyp-long-neighbours", "hyp", check=check_neighbours, strategy=lambda t: neighbour_case(), shrink=False,
              examples={"quick": 64, "thorough": 1600}, shards={"quick": 16, "thorough": 16}),
     ]
